@@ -451,6 +451,41 @@ class Gen:
             k += 1
         return cases
 
+    def split(self, target):
+        """a state change racing with a request that already passed the router's state gate: the headers of an
+        action request are sent (its handler is dispatched and waits for the body), a second request that changes
+        the state (replica: close / delete; controller: delete of an attached replica / shutdown) is served, then
+        the body arrives; every action route that reads a body x the states in which it is allowed x every such
+        second request, each in a fresh child, followed by a read of the object"""
+        cases = []
+        look = self.route(target, "/v1/replicas")
+        if target == "replica":
+            sts = [s for s in self.states(target) if s["kind"] in ("open", "dirty", "rebuilding")]
+            mids = [self.req(target, self.route(target, "/v1/replicas/{id}", "action=close")),
+                    self.req(target, [r for r in self.routes[target] if r["path"] == "/v1/replicas/{id}" and "DELETE" in (r["methods"] or [])][0])]
+        else:
+            sts = [s for s in self.states(target) if s.get("replicas")]
+            seen = []
+            sts = [s for s in sts if s["kind"] not in seen and not seen.append(s["kind"])][:3]
+            dele = [r for r in self.routes[target] if r["path"] == "/v1/replicas/{id}" and "DELETE" in (r["methods"] or [])][0]
+            mids = [self.req(target, dele, idx=0), self.req(target, dele, idx=1),
+                    self.req(target, self.route(target, "/v1/volumes/{id}", "action=shutdown"))]
+        for r in self.action_routes(target):
+            q = "&".join(r["queries"] or [])
+            base = valid_body(target, r["path"], q, self.rng)
+            if not base:
+                continue
+            for st in sts:
+                for mid in mids:
+                    idxs = [None]
+                    if target == "controller" and "/replicas/{id}" in r["path"]:
+                        idxs = [0, 1]
+                    for idx in idxs:
+                        main = self.req(target, r, valid=base, idx=idx)
+                        main["mid"] = dict(mid)
+                        cases.append(self.case(target, st, [main, self.req(target, look)]))
+        return cases
+
     def chain_matrix(self):
         """controller, one RW and one WO replica: every pair of chain lengths (0..4) x (0..4) the two may
         report at the moment a rebuild request arrives (0: a replica that is closed / restarting reports no
